@@ -10,7 +10,7 @@ PENDING = 'check under construction (DESIGN.md Appendix C); not claimed yet'
 CLAIMED = {
     'C19': dict(
         category='other',
-        text='Static provenance analysis over rustc MIR: every Cel/CelId construction, every index into the cel table, every Cel accessor and the three image routes are enumerated and shown to use the (file, frame, layer) triple un-swapped, for all inputs. Decides the structural clauses (same pair => same cel); pixel equality then follows from "same routine, same arguments" and is not checked numerically. Also: validated cel rows keep slot positions (one push per slot on every path), the parent table and the unnarrowed nesting level behind \'visible\'. The visibility walk tests every chain member including the layer itself (dataflow rule shared with C09); Cel::is_empty is exactly `the lookup finds nothing`.',
+        text='Static provenance analysis over rustc MIR: every Cel/CelId construction, every index into the cel table, every Cel accessor and the three image routes are enumerated and shown to use the (file, frame, layer) triple un-swapped, for all inputs. Decides the structural clauses (same pair => same cel); pixel equality then follows from "same routine, same arguments" and is not checked numerically. Also: validated cel rows keep slot positions (one push per slot on every path), the parent table and the unnarrowed nesting level behind \'visible\'. The visibility walk tests every chain member including the layer itself (dataflow rule shared with C09); Cel::is_empty is exactly `the lookup finds nothing`. The three routes draw a cel under the same documented conditions only (no fast path in one of them).',
         design_ref='DESIGN.md section 4, C19',
         note='Trusted: rustc MIR construction, the asemir driver, std Vec/Index semantics. Parameter positions of the public API (cel(frame, layer), Frame::layer(layer), Layer::frame(frame), tilemap(layer, frame)) are the oracle.',
         technique='static analysis: MIR origin/provenance dataflow + dominance (custom rustc_private driver)'),
@@ -25,7 +25,7 @@ CLAIMED['C08'] = dict(
 
 CLAIMED['C09'] = dict(
     category='other',
-    text='Static shape + provenance analysis over rustc MIR of the three functions that carry the property. compute_parents: one table entry per layer (enumerate over the whole slice, one push per iteration), the entry is None exactly under child_level == 0, otherwise the result of a last-match search (rposition) over the layers before it (take(id)) whose predicate is candidate.child_level < own child_level - by the documented meaning of rposition the nearest preceding layer with a smaller level, hence a lower id; no candidate is a ?-propagated error. Layer::parent() returns that entry for its own id; the level compared is the unnarrowed 16-bit file field, the layer chunk (incl. the flags word that carries the visible bit) is read and stored as the spec table says, and the layer-count cap rejects only more than 65536 layers. An explicit descending search loop with first-match break and a `parent.is_none() -> Err` check is accepted as a second spelling of the search. Layer::is_visible returns false only after a failed VISIBLE test of a member of the chain self, parent, grandparent, ... and true only at a member with no parent whose own test passed, the chain being loop-carried through the parents table (unbounded). frame_image draws a cel only under is_visible() of its layer. Decided for all level sequences because it is the shape of the search, not a sample of its results. Also: layers and cels are collected independently of their order in the file, no new refusal of legal forests (error-construction inventory). A must-dataflow over the CFG of is_visible (any loop shape, helpers inlined) shows that every value the chain cursor takes - the layer itself first - passed its VISIBLE test before it is replaced and before a result that can be true is produced; a stored cel cannot be dropped by a later cel chunk of a lower layer (grow-only rows).',
+    text='Static shape + provenance analysis over rustc MIR of the three functions that carry the property. compute_parents: one table entry per layer (enumerate over the whole slice, one push per iteration), the entry is None exactly under child_level == 0, otherwise the result of a last-match search (rposition) over the layers before it (take(id)) whose predicate is candidate.child_level < own child_level - by the documented meaning of rposition the nearest preceding layer with a smaller level, hence a lower id; no candidate is a ?-propagated error. Layer::parent() returns that entry for its own id; the level compared is the unnarrowed 16-bit file field, the layer chunk (incl. the flags word that carries the visible bit) is read and stored as the spec table says, and the layer-count cap rejects only more than 65536 layers. An explicit descending search loop with first-match break and a `parent.is_none() -> Err` check is accepted as a second spelling of the search. Layer::is_visible returns false only after a failed VISIBLE test of a member of the chain self, parent, grandparent, ... and true only at a member with no parent whose own test passed, the chain being loop-carried through the parents table (unbounded). frame_image draws a cel only under is_visible() of its layer. Decided for all level sequences because it is the shape of the search, not a sample of its results. Also: layers and cels are collected independently of their order in the file, no new refusal of legal forests (error-construction inventory). A must-dataflow over the CFG of is_visible (any loop shape, helpers inlined) shows that every value the chain cursor takes - the layer itself first - passed its VISIBLE test before it is replaced and before a result that can be true is produced; a stored cel cannot be dropped by a later cel chunk of a lower layer (grow-only rows). Every layer chunk is recorded on every error-free path through its dispatch arm, in any frame.',
     design_ref='DESIGN.md section 13 (supersedes the not-applicable entry of section 4/6 for C09)',
     note='Trusted: rustc MIR, the driver, the documented semantics of Iterator::enumerate/take/rposition (not analysed). The rule recognises the rposition form of the search and the loop (strongly) / recursive / iterator (weakly: unbounded walk + VISIBLE flag) forms of is_visible; a rewrite into a different algorithm is reported as an unrecognised form.',
     technique='static analysis: MIR provenance terms, closure-body inspection, dominance/guards (custom rustc_private driver)')
@@ -46,76 +46,76 @@ CLAIMED['C15'] = dict(
 
 CLAIMED['C10'] = dict(
     category='other',
-    text='The attachment rule is a finite state machine written as match arms; an effect analysis over rustc MIR (writes through &mut ParseInfo with local callees inlined) reads the whole transition table off the code - per chunk kind the context effect and payload origin, per context the entity written and nothing else - and compares it with the table the property states, together with: no other writer of the state (and none in parse_frame outside the dispatch arms), initial state None, every entity constructed with an empty user-data slot, the tag vector never reordered between decoding and attachment, text/colour read only under their flag bits, accessors return the written field, validation moves entities without dropping user data. Every transition is decided for every arm, hence for every chunk sequence. Also: chunks are dispatched in file order, the context index is kept at >= 32 bits for slices, cel rows only grow, and the three routes to a cel are C19\'s rules (as S6). Also: the call that moves the context is on every error-free path through its dispatch arm (no bypass by an `if let` / `||` test).',
+    text='The attachment rule is a finite state machine written as match arms; an effect analysis over rustc MIR (writes through &mut ParseInfo with local callees inlined) reads the whole transition table off the code - per chunk kind the context effect and payload origin, per context the entity written and nothing else - and compares it with the table the property states, together with: no other writer of the state (and none in parse_frame outside the dispatch arms), initial state None, every entity constructed with an empty user-data slot, the tag vector never reordered between decoding and attachment, text/colour read only under their flag bits, accessors return the written field, validation moves entities without dropping user data. Every transition is decided for every arm, hence for every chunk sequence. Also: chunks are dispatched in file order, the context index is kept at >= 32 bits for slices, cel rows only grow, and the three routes to a cel are C19\'s rules (as S6). Also: the call that moves the context is on every error-free path through its dispatch arm (no bypass by an `if let` / `||` test). The record\'s text is the STRING as stored (the reader\'s string primitive is judged here too).',
     design_ref='DESIGN.md section 4, C10',
     note='Trusted: rustc MIR, the driver, documented behaviour of Vec::len/push/get_mut. The oracle table is transcribed from the property statement (DESIGN.md C10).',
     technique='static analysis: MIR effect (write-set) analysis per match arm + provenance + dominance')
 
 CLAIMED['C01'] = dict(
     category='other',
-    text='Static layout + provenance analysis over rustc MIR. For each of the 14 decoder bodies every non-error CFG path is enumerated (loops unrolled 0/1/2, reader-taking helpers inlined; nothing is executed), giving labelled sequences of reader-primitive calls that must equal the sequences generated from a hand-transcribed table of the Aseprite file-format spec (widths, signedness, order, optional parts under the right flag bit, repeat counts from the right field). Every stored struct field must then have exactly one origin - the read bound to the like-named spec field - through value-preserving casts, every public getter must return that stored field, no call may reorder layers/tags/slices/keys, frame durations are stored and read at the frame index, every chunk code reaches its own decoder on its own payload, chunk framing rejects exactly the sizes below the 6-byte header or beyond the bytes left in the frame (nothing tighter), palette entries are decoded as under C11 (ids, cumulative legacy offsets, scaling), name lookups scan forward and the layer iterator defines no cursor-moving method besides next(). Decides the structural clauses for all inputs and chunk programs; does not decide that values survive std (UTF-8, HashMap). Also: each arm of the chunk dispatch touches only its own part of the parser state (outcome independent of chunk order), the loader constructs an error of its own at no more places than the reviewed 43 (no new refusal of conformant files), the layer parent search accepts every legal forest.',
+    text='Static layout + provenance analysis over rustc MIR. For each of the 14 decoder bodies every non-error CFG path is enumerated (loops unrolled 0/1/2, reader-taking helpers inlined; nothing is executed), giving labelled sequences of reader-primitive calls that must equal the sequences generated from a hand-transcribed table of the Aseprite file-format spec (widths, signedness, order, optional parts under the right flag bit, repeat counts from the right field). Every stored struct field must then have exactly one origin - the read bound to the like-named spec field - through value-preserving casts, every public getter must return that stored field, no call may reorder layers/tags/slices/keys, frame durations are stored and read at the frame index, every chunk code reaches its own decoder on its own payload, chunk framing rejects exactly the sizes below the 6-byte header or beyond the bytes left in the frame (nothing tighter), palette entries are decoded as under C11 (ids, cumulative legacy offsets, scaling), name lookups scan forward and the layer iterator defines no cursor-moving method besides next(). Decides the structural clauses for all inputs and chunk programs; does not decide that values survive std (UTF-8, HashMap). Also: each arm of the chunk dispatch touches only its own part of the parser state (outcome independent of chunk order), the loader constructs an error of its own at no more places than the reviewed 43 (no new refusal of conformant files), the layer parent search accepts every legal forest. The tables that collect entities across chunks are only grown (push / insert / resize), never reassigned as a whole; STRING is decoded from the bytes as read (nothing touches the buffer in between).',
     design_ref='DESIGN.md section 4, C01',
     note='Trusted: rustc MIR, the driver, tables/spec_layout.json (the oracle, transcribed from the spec document linked by the crate), std container contracts. Loop unrolling bound 2, helper inlining depth 3 (deepest real chain 3).',
     technique='static analysis: bounded CFG path enumeration of read schedules vs spec table + MIR provenance (origin) dataflow')
 
 CLAIMED['C11'] = dict(
     category='other',
-    text='Static check of the three palette decoders and of index validation over rustc MIR: layouts of the new and both legacy palette chunks equal the spec table (path enumeration); entry id = first + loop index and is the insertion key; legacy offsets are cumulative across packets, count byte 0 means 256, alpha is 255; the 0x0004/0x0011 decoders are siblings differing exactly in scale_6bit_to_8bit (which rejects >= 64); effect analysis of parse_frame gives palette precedence (new unconditional, legacy only under is_none, no other writer); every Pixels::Indexed construction is dominated by a successful whole-slice validate_indexed_pixels on the same data under Some(palette), and cel and tileset pixels reach the sprite only through that validation. no assignment to ParseInfo.palette exists outside the three palette chunk arms (no invented fallback palette); the two scaling end points the statement names (0 -> 0, 63 -> 255) are decided by constant propagation of those two literals through the call-free result term with u8 wrapping. Decides these clauses for all inputs; the interior of the 6->8 bit map is not part of the statement and not decided. The assignment in the Palette arm is on every error-free path through the arm (bypass search on the CFG, so gates written with || are seen).',
+    text='Static check of the three palette decoders and of index validation over rustc MIR: layouts of the new and both legacy palette chunks equal the spec table (path enumeration); entry id = first + loop index and is the insertion key; legacy offsets are cumulative across packets, count byte 0 means 256, alpha is 255; the 0x0004/0x0011 decoders are siblings differing exactly in scale_6bit_to_8bit (which rejects >= 64); effect analysis of parse_frame gives palette precedence (new unconditional, legacy only under is_none, no other writer); every Pixels::Indexed construction is dominated by a successful whole-slice validate_indexed_pixels on the same data under Some(palette), and cel and tileset pixels reach the sprite only through that validation. no assignment to ParseInfo.palette exists outside the three palette chunk arms (no invented fallback palette); the two scaling end points the statement names (0 -> 0, 63 -> 255) are decided by constant propagation of those two literals through the call-free result term with u8 wrapping. Decides these clauses for all inputs; the interior of the 6->8 bit map is not part of the statement and not decided. The assignment in the Palette arm is on every error-free path through the arm (bypass search on the CFG, so gates written with || are seen). The old-palette arms store the decoder\'s result untouched: nothing but plumbing is called in the arm, and it has no loop.',
     design_ref='DESIGN.md section 4, C11',
     note='Trusted: rustc MIR, the driver, spec table, IntMap/HashMap semantics. A scaling formula outside the constant propagation (table lookup, call) is recorded as undecided, not reported.',
     technique='static analysis: read-schedule path enumeration vs spec + sibling comparison + effect analysis + must-pass-through dominance')
 
 CLAIMED['C02'] = dict(
     category='other',
-    text='Static check of the compositing skeleton over rustc MIR - eight clauses, each a necessary condition of bottom-to-top composition, decided for all inputs: fresh width x height canvas returned; cels visited through data[frame].iter().enumerate().filter_map (ascending layer index) with no early exit; slot storage by (frame, layer) with duplicate cels rejected; the only write_cel in the frame loop dominated by is_visible()==true of the same item\'s layer; per-pixel opacity = mul_un8(layer opacity of the cel\'s own layer, cel opacity); per-pixel function = blend_mode_to_blend_fn(mode of the cel\'s own layer) with the 19-row mode->function and code->mode tables equal to the spec; backdrop read and result store at the same (x, y), source from the cel pixel slice; cel offset sign-extended and every pixel access guarded by 0 <= coord < dimension. Partial: pixel values, clip index arithmetic and mul_un8 rounding are not decided. Also: the Cel arm of the dispatch is independent of the layers seen so far, the parent table / visibility chain is C09\'s, the divisions of blend::normal have the divisor src_a\'+back_a-mul_un8(back_a,src_a\') under back_a != 0 (lemma H3 stated), tile words are decoded with the cel\'s own masks. Also: the visibility walk tests every chain member (C09\'s dataflow rule), a linked cel is drawn by one recursive call on its target (offset and opacity are the target\'s), the layer flags word is converted by a masking conversion.',
+    text='Static check of the compositing skeleton over rustc MIR - eight clauses, each a necessary condition of bottom-to-top composition, decided for all inputs: fresh width x height canvas returned; cels visited through data[frame].iter().enumerate().filter_map (ascending layer index) with no early exit; slot storage by (frame, layer) with duplicate cels rejected; the only write_cel in the frame loop dominated by is_visible()==true of the same item\'s layer; per-pixel opacity = mul_un8(layer opacity of the cel\'s own layer, cel opacity); per-pixel function = blend_mode_to_blend_fn(mode of the cel\'s own layer) with the 19-row mode->function and code->mode tables equal to the spec; backdrop read and result store at the same (x, y), source from the cel pixel slice; cel offset sign-extended and every pixel access guarded by 0 <= coord < dimension. Partial: pixel values, clip index arithmetic and mul_un8 rounding are not decided. Also: the Cel arm of the dispatch is independent of the layers seen so far, the parent table / visibility chain is C09\'s, the divisions of blend::normal have the divisor src_a\'+back_a-mul_un8(back_a,src_a\') under back_a != 0 (lemma H3 stated), tile words are decoded with the cel\'s own masks. Also: the visibility walk tests every chain member (C09\'s dataflow rule), a linked cel is drawn by one recursive call on its target (offset and opacity are the target\'s), the layer flags word is converted by a masking conversion. By control dependence, nothing but the documented conditions (loop, lookup, content match, visibility) decides whether a cel is drawn - no fast path or skip under any other test; the layer opacity is the stored byte of every layer.',
     design_ref='DESIGN.md section 4, C02',
     note='Trusted: rustc MIR, the driver, image::ImageBuffer::new zero-fills, the blend-mode numbering of the spec (DESIGN.md Appendix A). Structural clauses only; numeric equality with Aseprite is C03 (not applicable).',
     technique='static analysis: MIR provenance + dominance (guards) + switch-table extraction')
 
 CLAIMED['C06'] = dict(
     category='other',
-    text='Static check over rustc MIR of how cel pixels are decoded and handed to the rasteriser, decided for all inputs: cel chunk layout (signed x/y, four cel types, declared payload size w*h*bytes_per_pixel) equals the spec table; cel-type, colour-depth and bytes-per-pixel tables read off the match arms; RGBA = four consecutive byte reads in order, grayscale (v,a) -> [v,v,v,a], indexed -> [c.red,c.green,c.blue,A] with A = 0 exactly under (transparent_index == index && !layer_is_background); background flag from the cel\'s own layer (bit 0x8), transparent index from the header field; linked cels resolved against the same layer in the linked frame and drawn through the same routine; is_empty = is_none without negation; absent cel offset (0,0); opacity product and sign-extended offset as in C02. Partial: pixel values end to end and zlib correctness are not decided. Also: the take() bound of the inflater, Cel::image delegation, the link-target table built from the whole input, grow-only cel rows, the palette decoders (as V), no new refusal in the loader, the divisions of blend::normal. Also: which palette chunk supplies the colours (the new chunk on every path through its arm - no bypass, an old chunk only while none is set).',
+    text='Static check over rustc MIR of how cel pixels are decoded and handed to the rasteriser, decided for all inputs: cel chunk layout (signed x/y, four cel types, declared payload size w*h*bytes_per_pixel) equals the spec table; cel-type, colour-depth and bytes-per-pixel tables read off the match arms; RGBA = four consecutive byte reads in order, grayscale (v,a) -> [v,v,v,a], indexed -> [c.red,c.green,c.blue,A] with A = 0 exactly under (transparent_index == index && !layer_is_background); background flag from the cel\'s own layer (bit 0x8), transparent index from the header field; linked cels resolved against the same layer in the linked frame and drawn through the same routine; is_empty = is_none without negation; absent cel offset (0,0); opacity product and sign-extended offset as in C02. Partial: pixel values end to end and zlib correctness are not decided. Also: the take() bound of the inflater, Cel::image delegation, the link-target table built from the whole input, grow-only cel rows, the palette decoders (as V), no new refusal in the loader, the divisions of blend::normal. Also: which palette chunk supplies the colours (the new chunk on every path through its arm - no bypass, an old chunk only while none is set). RawPixels::validate hands the decoded pixels on unmodified; no fast path or skip decides whether or how a cel reaches the image (control dependence); the layer opacity is the stored byte.',
     design_ref='DESIGN.md section 4, C06',
     note='Trusted: rustc MIR, the driver, spec table, flate2. Structural clauses only.',
     technique='static analysis: read-schedule path enumeration vs spec + MIR provenance + switch tables + guard dominance')
 
 CLAIMED['C07'] = dict(
     category='other',
-    text='Non-interference decided statically over rustc MIR: every read the spec marks ignorable is consumed (layout equality for all 14 decoders) and its value has no use (def-use); every chunk decoder receives only the byte slice of its own chunk and builds a private reader, the chunk buffer is exactly chunk_size - 6 bytes; cel-extra/mask/path arms write no parser state and the colour-profile arm writes only a field nobody reads; the chunk count is new_chunks unless 0, else old_chunks; the pixel-ratio refusal accepts zero components (truth table by abstract evaluation); no reader call after the frames loop, the header file size is unused and the two public loaders hand their input to the one parser without looking at it (callee whitelist); each frame stores its own duration unconditionally (the deprecated header speed cannot show); palette precedence; raw/zlib cel decoders are siblings differing only in take_bytes vs unzip; cels stored by slot with duplicates rejected. Partial: shows absence of flows that could make observations differ; zlib level independence is flate2\'s contract. Also: dispatch arms independent of each other\'s state, chunk framing refuses exactly size < 6 and size > bytes left, flag words are converted through a masking conversion, no new refusal in the loader.',
+    text='Non-interference decided statically over rustc MIR: every read the spec marks ignorable is consumed (layout equality for all 14 decoders) and its value has no use (def-use); every chunk decoder receives only the byte slice of its own chunk and builds a private reader, the chunk buffer is exactly chunk_size - 6 bytes; cel-extra/mask/path arms write no parser state and the colour-profile arm writes only a field nobody reads; the chunk count is new_chunks unless 0, else old_chunks; the pixel-ratio refusal accepts zero components (truth table by abstract evaluation); no reader call after the frames loop, the header file size is unused and the two public loaders hand their input to the one parser without looking at it (callee whitelist); each frame stores its own duration unconditionally (the deprecated header speed cannot show); palette precedence; raw/zlib cel decoders are siblings differing only in take_bytes vs unzip; cels stored by slot with duplicates rejected. Partial: shows absence of flows that could make observations differ; zlib level independence is flate2\'s contract. Also: dispatch arms independent of each other\'s state, chunk framing refuses exactly size < 6 and size > bytes left, flag words are converted through a masking conversion, no new refusal in the loader. Which of the raw / zlib decoders applies is decided by the stored cel type alone (value table of CelContent::parse, its argument the whole field).',
     design_ref='DESIGN.md section 4, C07',
     note='Trusted: rustc MIR, the driver, spec table (which fields are ignorable), flate2.',
     technique='static analysis: def-use (taint) of ignorable reads, effect analysis per match arm, sibling comparison, abstract evaluation of guards')
 
 CLAIMED['C17'] = dict(
     category='other',
-    text='Static check of the call structure of blend.rs over rustc MIR: every non-Normal mode is blender(backdrop, src, opacity, its own distinct baseline); every baseline returns normal(backdrop, S\', opacity) on every path with alpha(S\') = alpha of src; blender is merge(merge(N, X, .), X, .) under a visible backdrop and normal(b,s,o) otherwise; normal\'s transparent-backdrop / transparent-source edges and the origin of its general alpha (only the two alphas and opacity); merge\'s alpha = blend8(back_a, src_a, opacity) and invisible-operand edges. From this wiring plus two stated arithmetic helper facts (H1 blend8(a,a,o)=a, H2 merge(c,c,o)=c) the mode-independent alpha law and the transparent-source / transparent-backdrop identities follow. Partial: H1/H2, the 0..255 range clause, the opaque-Normal and zero-opacity identities and all pixel values are NOT decided. Also decided: the divisions of normal (divisor shape under back_a != 0, lemma H3), no assertion site in blend.rs other than the four range assertions of from_rgba_i32 unless discharged, header/layer layouts and the background-flag test. Also: a linked cel takes its target\'s opacity (one recursive call), and the cel opacity is the byte the cel chunk stores, every value of it (layout + store rows of the CEL chunk).',
+    text='Static check of the call structure of blend.rs over rustc MIR: every non-Normal mode is blender(backdrop, src, opacity, its own distinct baseline); every baseline returns normal(backdrop, S\', opacity) on every path with alpha(S\') = alpha of src; blender is merge(merge(N, X, .), X, .) under a visible backdrop and normal(b,s,o) otherwise; normal\'s transparent-backdrop / transparent-source edges and the origin of its general alpha (only the two alphas and opacity); merge\'s alpha = blend8(back_a, src_a, opacity) and invisible-operand edges. From this wiring plus two stated arithmetic helper facts (H1 blend8(a,a,o)=a, H2 merge(c,c,o)=c) the mode-independent alpha law and the transparent-source / transparent-backdrop identities follow. Partial: H1/H2, the 0..255 range clause, the opaque-Normal and zero-opacity identities and all pixel values are NOT decided. Also decided: the divisions of normal (divisor shape under back_a != 0, lemma H3), no assertion site in blend.rs other than the four range assertions of from_rgba_i32 unless discharged, header/layer layouts and the background-flag test. Also: a linked cel takes its target\'s opacity (one recursive call), and the cel opacity is the byte the cel chunk stores, every value of it (layout + store rows of the CEL chunk). No skip or fast path decides whether a cel is blended (control dependence); pixel alpha passes RawPixels::validate unmodified; the layer opacity is the stored byte.',
     design_ref='DESIGN.md section 4, C17',
     note='Trusted: rustc MIR, the driver. Assumptions H1, H2 are listed in the evidence; the range clause would need relational numeric reasoning (a solver) - out of this technique family.',
     technique='static analysis: call-structure provenance over MIR (per-edge return terms, sibling distinctness)')
 
 CLAIMED['C13'] = dict(
     category='other',
-    text='For a strict prefix to load, a read that should hit end-of-input must be satisfied short or its failure ignored - both are shapes. Static who-may-call + error-discipline analysis over the loader cone: the input is touched only via read_exact-family calls or read_to_end on a take()/zlib wrapper (take_bytes compares the delivered length); a take() bound lets the whole requested length through; the public loaders add no peeking, sizing or prefetching in front of the parser (callee whitelist); the outer-reader functions use only exact primitives; the frames and chunk loops are 0..count with a ?-propagated parse call on every iteration and no exit but exhaustion or Err; header/frame/chunk layouts equal the spec so every byte before the end of the last frame is covered by an exact read; no Result in the cone is dropped. Decided for all inputs and cut points; the final inference (counts precede their data) is recorded reasoning. The read path (reader primitives, read_aseprite, parse_frame, Chunk::read/read_all) has no undischarged panic-capable site, so a cut ends in an error value; flat_map/flatten over Results counts as a dropped error.',
+    text='For a strict prefix to load, a read that should hit end-of-input must be satisfied short or its failure ignored - both are shapes. Static who-may-call + error-discipline analysis over the loader cone: the input is touched only via read_exact-family calls or read_to_end on a take()/zlib wrapper (take_bytes compares the delivered length); a take() bound lets the whole requested length through; the public loaders add no peeking, sizing or prefetching in front of the parser (callee whitelist); the outer-reader functions use only exact primitives; the frames and chunk loops are 0..count with a ?-propagated parse call on every iteration and no exit but exhaustion or Err; header/frame/chunk layouts equal the spec so every byte before the end of the last frame is covered by an exact read; no Result in the cone is dropped. Decided for all inputs and cut points; the final inference (counts precede their data) is recorded reasoning. The read path (reader primitives, read_aseprite, parse_frame, Chunk::read/read_all) has no undischarged panic-capable site, so a cut ends in an error value; flat_map/flatten over Results counts as a dropped error. The panic-site inventory of the read path includes the closures written in it.',
     design_ref='DESIGN.md section 4, C13',
     note='Trusted: rustc MIR, the driver, the documented contract of read_exact / byteorder read_* (UnexpectedEof on short input).',
     technique='static analysis: who-may-call on the input over the call-graph cone, loop-exit classification, Result-propagation dataflow')
 CLAIMED['C14'] = dict(
     category='other',
-    text='read_exact/read_to_end are specified to loop over short reads and retry Interrupted, so a parser touching its input only through them is insensitive to reader chunking; the check decides the shapes that make this argument valid, for all schedules: who-may-call on the input over the whole loader cone; no Seek/BufRead call and no branch on io::ErrorKind; IoError is constructed only in From<io::Error>::from from its argument, every io::Result is converted through it (map_err(to_ase) / ? / into()) and never formatted into another variant; Error::source returns Some(err) exactly for IoError; read_file and read reach the single read_aseprite and do nothing else with the input (callee whitelist); a buffering wrapper must own its input (one over a borrowed reader loses its read-ahead); no dropped Result.',
+    text='read_exact/read_to_end are specified to loop over short reads and retry Interrupted, so a parser touching its input only through them is insensitive to reader chunking; the check decides the shapes that make this argument valid, for all schedules: who-may-call on the input over the whole loader cone; no Seek/BufRead call and no branch on io::ErrorKind; IoError is constructed only in From<io::Error>::from from its argument, every io::Result is converted through it (map_err(to_ase) / ? / into()) and never formatted into another variant; Error::source returns Some(err) exactly for IoError; read_file and read reach the single read_aseprite and do nothing else with the input (callee whitelist); a buffering wrapper must own its input (one over a borrowed reader loses its read-ahead); no dropped Result. The crate implements no std::io trait (a wrapper around the input would be called by std, outside the call-graph cone), and ErrorKind is interpreted nowhere in the crate.',
     design_ref='DESIGN.md section 4, C14',
     note='Trusted: rustc MIR, the driver, the std::io::Read contract (also assumed of user readers that override read_exact). Readers violating that contract are out of scope.',
     technique='static analysis: who-may-call + error-discipline dataflow + provenance of error construction')
 
 CLAIMED['C04'] = dict(
     category='other',
-    text='Totality of loading is a reachability question over a finite, enumerable set of program points. The check enumerates, from the dev-profile MIR (overflow checks and debug assertions on), every site in the call-graph cone of read_aseprite that can stop the program other than by returning - Assert terminators, panic!/assert! calls, panic-capable external callees (indexing, unwrap, chunks_exact...), allocation sinks, recursion, loops - and requires each to be discharged by an argument valid for all inputs: an interval (width) argument with inter-procedural parameter ranges and dominating constant guards, a dominating guard in the same body, or a table row whose structural obligation is re-verified on every run (e.g. dominated by check_chunk_bytes(..)? which rejects chunk_size < 6). No recursion in the cone; every loop is memory-bounded, bounded by a <=16-bit count, or performs a ?-propagated read each iteration; no Result is dropped. The five loader panics this inventory found on the pinned tree were repaired by fix: commits.',
+    text='Totality of loading is a reachability question over a finite, enumerable set of program points. The check enumerates, from the dev-profile MIR (overflow checks and debug assertions on), every site in the call-graph cone of read_aseprite that can stop the program other than by returning - Assert terminators, panic!/assert! calls, panic-capable external callees (indexing, unwrap, chunks_exact...), allocation sinks, recursion, loops - and requires each to be discharged by an argument valid for all inputs: an interval (width) argument with inter-procedural parameter ranges and dominating constant guards, a dominating guard in the same body, or a table row whose structural obligation is re-verified on every run (e.g. dominated by check_chunk_bytes(..)? which rejects chunk_size < 6). No recursion in the cone; every loop is memory-bounded, bounded by a <=16-bit count, or performs a ?-propagated read each iteration; no Result is dropped. The five loader panics this inventory found on the pinned tree were repaired by fix: commits. Ord::clamp is a panic site (min <= max must follow from the interval analysis); assert!/debug_assert! sites are dropped only when the facts on the failing side contradict each other or the intervals put the operand inside the asserted constant range.',
     design_ref='DESIGN.md section 4, C04 and section 5',
     note='Trusted: rustc MIR, the driver, 64-bit usize, totality of external callees not on the panic-capable list (their distinct count is in the evidence), layer/slice counts fit u32. Allocation failure (abort) is judged under C12.',
     technique='static analysis: panic-site inventory over the call-graph cone + interval (width) domain + dominance guards + obligation table + SCC/loop-progress classification')
 
 CLAIMED['C12'] = dict(
     category='other',
-    text='Taint analysis from declared sizes to allocation sinks over the loader cone, value-independent and decided from the code: every allocation sink (with_capacity, vec![x; n], resize/resize_with/reserve, HashMap::with_capacity, read_to_end) gets a byte bound from an interval analysis of its size argument (inter-procedural parameter ranges, dominating constant guards such as .min(CAP)) times rustc\'s element size, and is classified bounded-constant (<= 32 MiB, multiplied by the trip bounds of enclosing loops for in-place growth of parser state), input-justified (length of data already in memory; buffer filled through a bounded reader whose delivered length is compared with the request; read_to_end on take()/zlib) or declared-only (a finding). Growth sinks (push/insert/collect) must sit in loops that are bounded or make ?-propagated progress on the input. Four declared-size allocations found on the pinned tree were repaired by fix: commits; one (add_cel resize_with, D17) is a recorded known finding. collect() into a plain collection over a declared range is a sink; a length that does not depend on the loop item reserved on every iteration is quadratic (reported).',
+    text='Taint analysis from declared sizes to allocation sinks over the loader cone, value-independent and decided from the code: every allocation sink (with_capacity, vec![x; n], resize/resize_with/reserve, HashMap::with_capacity, read_to_end) gets a byte bound from an interval analysis of its size argument (inter-procedural parameter ranges, dominating constant guards such as .min(CAP)) times rustc\'s element size, and is classified bounded-constant (<= 32 MiB, multiplied by the trip bounds of enclosing loops for in-place growth of parser state), input-justified (length of data already in memory; buffer filled through a bounded reader whose delivered length is compared with the request; read_to_end on take()/zlib) or declared-only (a finding). Growth sinks (push/insert/collect) must sit in loops that are bounded or make ?-propagated progress on the input. Four declared-size allocations found on the pinned tree were repaired by fix: commits; one (add_cel resize_with, D17) is a recorded known finding. collect() into a plain collection over a declared range is a sink; a length that does not depend on the loop item reserved on every iteration is quadratic (reported). A reservation of the bounded readers must be tied to the requested length; in the loader only reference-counted handles and plain small values are cloned.',
     design_ref='DESIGN.md section 4, C12 and section 5',
     note='Trusted: rustc MIR and layout, the driver, 64-bit usize, flate2 expansion <= ~1032:1, amortised growth of Vec/HashMap. The exact 64 MiB + 8192 B/byte constant is not decided; the sum of bounded-constant sinks is reported.',
     technique='static analysis: taint from file-field reads to allocation sinks + interval (width) domain + loop classification')
